@@ -510,9 +510,13 @@ Definition handler_search2 (s : ischema) (r : search2) : hres :=
   guarded hdl_v2_search_validates_first (validate_search s r) OpSearch.
 
 (* ---- v1: every handler reads IndexSchema["vector"].VectorVamana.VectorSize without a nil test *)
+(* since fix 302aec2: the helper hands the vamana block out only when the property IS a vamana index
+   (hdl_v1_helper_checks_type, read off the source); before, whatever vamana block the property carried *)
 Definition v1_dim (s : ischema) : option Z :=
   match lookup "vector" s with
-  | Some iv => option_map vp_size (iv_vamana iv)
+  | Some iv =>
+      if hdl_v1_helper_checks_type && negb (seq (iv_type iv) "vectorVamana") then None
+      else option_map vp_size (iv_vamana iv)
   | None => None
   end.
 
